@@ -137,6 +137,7 @@ type bodyReader struct {
 	abortAt int // <0: never
 	lastAt  time.Time // when the last piece was handed over
 	maxGap  time.Duration // longest pause between two pieces
+	stall   *simrt.WaitGroup // after the first piece the client sends nothing more until this is released, then goes away
 }
 
 func (b *bodyReader) Read(p []byte) (int, error) {
@@ -145,6 +146,10 @@ func (b *bodyReader) Read(p []byte) (int, error) {
 	}
 	if b.pos >= len(b.data) {
 		return 0, io.EOF
+	}
+	if b.pos > 0 && b.stall != nil {
+		b.stall.Wait()
+		return 0, io.ErrUnexpectedEOF
 	}
 	if b.pos > 0 {
 		if b.sleepMs > 0 {
@@ -198,6 +203,7 @@ type reqSpec struct {
 	addr       string
 	repos      []string // repositories this request addresses (for the path monitor)
 	ctx        context.Context
+	stall      *simrt.WaitGroup // the body stops after its first piece until this is released (a client that stalls)
 }
 
 func routeOf(method, p string) string {
@@ -273,7 +279,7 @@ func (w *World) do(rs reqSpec) *Resp {
 		if rs.abort {
 			abort = rs.abortAt
 		}
-		br = &bodyReader{data: rs.body, pieces: rs.pieces, sleepMs: rs.sleepMs, abortAt: abort}
+		br = &bodyReader{data: rs.body, pieces: rs.pieces, sleepMs: rs.sleepMs, abortAt: abort, stall: rs.stall}
 		req.Body = br
 		req.ContentLength = int64(len(rs.body))
 		if rs.unknownLen {
